@@ -42,6 +42,46 @@ class DecodeError(Exception):
     pass
 
 
+_XZ_DICTS = []
+
+
+def _xz_dict_size(data):
+    """LZMA2 dictionary size announced in the (first) block header of an .xz stream, None when there is none to read"""
+    try:
+        if data[:6] != b"\xfd7zXZ\0":
+            return None
+        p = 12
+        hsize = (data[p] + 1) * 4
+        fl = data[p + 1]
+        q = p + 2
+
+        def vli(q):
+            v = sh = 0
+            while True:
+                b = data[q]
+                q += 1
+                v |= (b & 0x7F) << sh
+                sh += 7
+                if not b & 0x80:
+                    return v, q
+        if fl & 0x40:
+            _, q = vli(q)
+        if fl & 0x80:
+            _, q = vli(q)
+        for _ in range((fl & 3) + 1):
+            fid, q = vli(q)
+            psz, q = vli(q)
+            if fid == 0x21 and psz == 1:
+                bits = data[q] & 0x3F
+                return 0xFFFFFFFF if bits >= 40 else (2 | (bits & 1)) << (bits // 2 + 11)
+            q += psz
+            if q > p + hsize:
+                break
+    except IndexError:
+        pass
+    return None
+
+
 def decompress(comp_id, data, maxout):
     if comp_id == 1:
         d = zlib.decompressobj()
@@ -52,6 +92,7 @@ def decompress(comp_id, data, maxout):
             raise DecodeError("gzip: trailing bytes in block")
     elif comp_id == 4:
         out = lzma.decompress(data, format=lzma.FORMAT_XZ)
+        _XZ_DICTS.append(_xz_dict_size(data))
     elif comp_id == 2:
         # lzma-alone with the 8 byte size field replaced; squashfs stores props(5) + size(8, LE)
         out = lzma.decompress(data, format=lzma.FORMAT_ALONE)
@@ -196,6 +237,7 @@ class Image:
         self.inodes_by_num = {}
         self.export = None
         self.comp = 0
+        self.comp_opts = None
         self.data_extents = []   # (start, end, what)
         self.loc_lists = []      # (table, start, end) of every lookup table's block location list
         self.struct_starts = set()
@@ -249,8 +291,23 @@ def _read_table(img, start, count, entsize, per_block, what, upper):
 def decode(src, want_content=True, max_nodes=200000):
     data = src if isinstance(src, (bytes, bytearray)) else open(src, "rb").read()
     img = Image(bytes(data))
+    del _XZ_DICTS[:]
     try:
         _decode(img, want_content, max_nodes)
+        if img.comp == 4:
+            # the one compressor whose options a reader (the kernel) acts on: it allocates the announced dictionary - the option block's,
+            # or max(block size, 8 KiB) without one - and refuses a stream that asks for more
+            if img.comp_opts is not None and len(img.comp_opts) >= 8:
+                announced = struct.unpack_from("<I", img.comp_opts, 0)[0]
+                n = announced
+                if n < 8192 or not (n & (n - 1) == 0 or (n % 3 == 0 and (n // 3) & (n // 3 - 1) == 0)):
+                    img.invalid.append("sb: XZ options announce a dictionary of %d bytes (must be >= 8 KiB and 2^n or 2^n + 2^(n+1))" % n)
+            else:
+                announced = max(img.sb["block_size"], 8192)
+            big = [x for x in _XZ_DICTS if x is not None and x > announced]
+            if big:
+                img.invalid.append("xz: %d of %d streams ask for a dictionary of up to %d bytes, the image announces %d (%s)" % (
+                    len(big), len(_XZ_DICTS), max(big), announced, "option block" if img.comp_opts is not None else "no option block: max(block size, 8 KiB)"))
     except DecodeError as e:
         img.errors.append(str(e))
     except (struct.error, lzma.LZMAError, zlib.error, IndexError, OverflowError, MemoryError, ValueError) as e:
